@@ -50,6 +50,10 @@ CHECKS["C12"] = dict(
     text="PARTIAL by nature. Proved: the effective wait computed by dispatch_events/Poll::poll is None only without timeout, synthetic event and armed timer; otherwise exactly the smaller of the (possibly zeroed) timeout and the saturating time to the earliest deadline; a zero timeout never blocks; when the wait ends at or after the earliest deadline a timer with that deadline is among the expired ones. Measured every run: a matrix of real dispatch() calls (timeouts 0/40/400 ms/None+wakeup x timers none/earlier/equal/later/expired/Duration::MAX x idle sources incl. orphaned ping and closed channel) must wait at least the model's effective time (minus 1.5 ms), at most 120 ms longer (re-measured up to 3 times), fire the timer iff it is the limit, and run no idle source's callback.",
     note="The kernel's waiting and the machine's scheduling latency are measured, not modelled; the eff_timeout function is tied to sys.rs only through these measurements (a wrong min/max/saturation shows as a bound violation). No axioms.",
     technique="Coq proof of the timeout arithmetic + wall-clock measurement matrix against the model's effective timeout", ref="DESIGN.md 4 (C12)")
+CHECKS["C03"] = dict(
+    text="Proved for ANY number of pinger threads, ANY well-formed programs of ping/clone/drop, ANY number of dispatches and ANY schedule at the granularity of one eventfd write/read, Arc count change or poll per step: the counter always encodes exactly the pings written since the last drain plus the close marker (C03_invariant), hence the drain calls back iff at least one ping was written since the previous drain (no loss, no spurious callback, coalescing), a pending ping makes the next poll return the source (progress), the close marker is written at most once and only when no handle is left, the source is removed only by the drain that sees it, and afterwards nothing can write and the counter stays zero (no spinning). Correspondence: ~1300 schedules per quick run executed on real OS threads under a baton scheduler (yield points before every shared effect) and on the extracted model - step/yield-id/observation traces must be equal - plus an oracle on the real traces.",
+    note="Eventfd atomicity, the level-triggered readiness of a non-zero counter and Arc's atomic count are the assumed environment; interleavings below the yield-point granularity (compiler/CPU reordering inside a segment) are invisible. EAGAIN at 2^64-2 is not modelled. No axioms.",
+    technique="Coq proof (invariant by induction over arbitrary schedules) + controlled-scheduler differential correspondence on real threads", ref="DESIGN.md 4 (C03)")
 
 def main():
     props = [json.loads(l) for l in open(os.path.join(ROOT, "properties.jsonl"))]
